@@ -79,7 +79,13 @@ where
                 for low in 0..(1u32 << 12) {
                     let b = ((blk as u32) << 12) | low;
                     let (neg, mag) = floatspec::f32_to_int_fast(b, T::BITS, T::SIGNED);
-                    let x = T::cast_from(f32::from_bits(b));
+                    let x = match std::panic::catch_unwind(|| T::cast_from(f32::from_bits(b))) {
+                        Ok(x) => x,
+                        Err(_) => {
+                            l.check::<Z>(&cfg, "cast_from_f32", || vec![format!("{:#x}", b)], 0, &Expect::NoPanic, &Obs::Panic);
+                            continue;
+                        }
+                    };
                     // compare on the bit pattern
                     let want = if neg { (mag as i128).wrapping_neg() as u128 } else { mag };
                     let mask = if T::BITS == 128 { u128::MAX } else { (1u128 << T::BITS) - 1 };
@@ -105,7 +111,13 @@ where
                     for lw in [0u64, 1, 0xffff_ffff] {
                         let b = (high << 32) | lw;
                         let (neg, mag) = floatspec::f64_to_int_fast(b, T::BITS, T::SIGNED);
-                        let x = T::cast_from(f64::from_bits(b));
+                        let x = match std::panic::catch_unwind(|| T::cast_from(f64::from_bits(b))) {
+                            Ok(x) => x,
+                            Err(_) => {
+                                l.check::<Z>(&cfg, "cast_from_f64", || vec![format!("{:#x}", b)], 0, &Expect::NoPanic, &Obs::Panic);
+                                continue;
+                            }
+                        };
                         let want = if neg { (mag as i128).wrapping_neg() as u128 } else { mag };
                         let mask = if T::BITS == 128 { u128::MAX } else { (1u128 << T::BITS) - 1 };
                         l.transitions += 1;
